@@ -192,7 +192,11 @@ impl Interp {
                 nodes_before.push(self.m.handle(*p).node);
             }
         }
+        let kinks = refmodel::ops::kink_count();
         let mres = self.m.step(s);
+        if refmodel::ops::kink_count() > kinks && !self.m.nodes.last().map_or(true, |n| n.exact) {
+            return Err(HOutcome::Discard("a relu input is zero only up to rounding: its derivative is undecidable".into()));
+        }
         let eres = self.ex.step(s);
         match (&mres, &eres) {
             (Err(RefErr::OutOfDomain(w)), _) => return Err(HOutcome::Discard(w.clone())),
